@@ -3,6 +3,7 @@ package main
 import (
 	"context"
 	"fmt"
+	"sync"
 	"time"
 
 	am "github.com/pancsta/asyncmachine-go/pkg/machine"
@@ -130,6 +131,60 @@ func runDirected(res *core.CaseResult, c core.CaseDesc) {
 					uint64(ticks[k]), m.QueueTick(), m.ActiveStates(nil), order, ticks), nil)
 				return
 			}
+		}
+	case 9, 10: // NewStateCtx asked between the applying of a target and the serving of the contexts
+		// 9: a Multi state is re-activated (new instance), 10: a state is deactivated.
+		// A context of the previous instance is cached; the one handed out in the
+		// window is asked for at the new tick and has to live as long as that tick.
+		m := mk(am.Schema{"M": {Multi: true}, "A": {}})
+		st := "M"
+		if c.Seed == 10 {
+			st = "A"
+		}
+		m.Add1(st, nil)
+		old := m.NewStateCtx(st)
+		am.VerifHookClear()
+		defer am.VerifHookClear()
+		gate := make(chan struct{})
+		reached := make(chan struct{})
+		var once sync.Once
+		am.VerifHookSet("tx.applied", func() {
+			once.Do(func() {
+				close(reached)
+				select {
+				case <-gate:
+				case <-time.After(20 * time.Second):
+				}
+			})
+		})
+		done := make(chan struct{})
+		go func() {
+			if c.Seed == 9 {
+				m.Add1(st, nil)
+			} else {
+				m.Remove1(st, nil)
+			}
+			close(done)
+		}()
+		select {
+		case <-reached:
+		case <-time.After(10 * time.Second):
+			res.Inconclusive = "tx.applied not reached"
+			close(gate)
+			return
+		}
+		tickAtCall := m.Tick(st)
+		fresh := m.NewStateCtx(st)
+		close(gate)
+		<-done
+		<-m.WhenQueueEnds()
+		if old.Err() == nil {
+			res.Violate("C06/statectx/alive-after-tick-change", "the context of the previous instance of "+st+" is still alive", nil)
+		}
+		if m.Tick(st) == tickAtCall && fresh.Err() != nil {
+			res.Violate("C06/statectx/canceled-without-tick-change/asked-while-transition-applies", fmt.Sprintf(
+				"NewStateCtx(%s) asked after the running transition had applied its target (tick %d) was canceled although the tick is still %d "+
+					"(it got the cached context of the previous instance)", st, tickAtCall, m.Tick(st)), nil)
 		}
 	}
 }
